@@ -13,4 +13,5 @@ func simAfter(p *Process, re *RuntimeEnvironment, what SimOpResult)             
 func simEvent(p *Process, re *RuntimeEnvironment, kind SimEventKind, rule Rule) {}
 func simClose(p *Process, re *RuntimeEnvironment, n Name)                       {}
 
-func simRecoverTypecheck() {}
+func simRecoverTypecheck()       {}
+func simFaultPoint(point string) {}
